@@ -195,6 +195,111 @@ def rule_generated(src, rep, counts):
     counts["generated_cases"] = len(jobs)
 
 
+def rule_derived(src, rep, counts):
+    """The same methods on receivers arrived at through a history: every value of the derived pool (public operations on base
+    values that were looked at first), also after the caller edited the dict a shared_atts read had returned, and join given a
+    one-shot iterator."""
+    from ..derive import derived_values
+    from ..fold import new_interp
+    from ..models import cells
+    it = new_interp(src, check_views=True)
+    f = src.func("formatstring", "FmtStr.__getattr__") if ("formatstring", "FmtStr.__getattr__") in src.funcs else src.func("formatstring", "FmtStr.split")
+    dv = derived_values(it)
+    bad = []
+    n = 0
+
+    def text_of(v):
+        return "".join(t for t, _ in runs_of(v))
+
+    def call(v, meth, args):
+        try:
+            m = it.folder.obj_attr(v, meth)
+            r = it.folder.v_call(m, list(args), {}, None, {})
+            why = it._views(r)
+            return ("incoherent", why) if why else ("ok", r)
+        except Exception as e:
+            if getattr(e, "name", None) is None:
+                raise AnalysisError("%s on a derived receiver is outside the evaluated subset: %s" % (meth, e))
+            return ("raise", e.name)
+
+    def compare(how, v, edited=False):
+        text = text_of(v)
+        for meth, args in (("upper", ()), ("strip", ()), ("split", (" ",)), ("splitlines", ()), ("splitlines", (True,)), ("ljust", (len(text) + 2, "*")),
+                           ("center", (len(text) + 3,)), ("find", ("a",)), ("count", ("1",)), ("replace", ("a", "A"))):
+            r = call(v, meth, args)
+            try:
+                want = getattr(text, meth)(*args)
+            except Exception as e:
+                want = ("raise", type(e).__name__)
+            if r[0] == "ok":
+                got = [text_of(x) for x in r[1]] if isinstance(r[1], list) else text_of(r[1]) if isinstance(r[1], Obj) else r[1]
+            else:
+                got = r
+            if got != want:
+                return "%s.%s%r gives %s, str gives %r" % (how, meth, args, got if r[0] == "ok" else "%s %s" % r, want)
+            if edited and r[0] == "ok" and isinstance(r[1], Obj) and isinstance(want, str):
+                had = {kv for _, e in cells(runs_of(v)) for kv in e}
+                extra = {kv for _, e in cells(runs_of(r[1])) for kv in e} - had
+                if extra:
+                    return "%s.%s%r shows the formatting %s, which no character of the receiver had" % (how, meth, args, sorted(extra))
+        return None
+    for how, v in dv:
+        n += 1
+        rep.case(True)
+        if isinstance(v, tuple):
+            bad.append((how, v[1]))
+            continue
+        why = compare(how, v)
+        if why:
+            bad.append((how, why))
+    # the caller edits what a shared_atts read returned, then uses the value
+    for runs in ([("ab", {"fg": 31, "bg": 44}), ("c d", {"bg": 44})], [("x", {"bold": True})]):
+        v = mk(it, *runs)
+        try:
+            d = it.folder.obj_attr(v, "shared_atts")
+        except Exception as e:
+            raise AnalysisError("shared_atts outside the evaluated subset: %s" % e)
+        if isinstance(d, dict):
+            d["underline"] = True
+            for k in [k for k in d if k != "underline"][:1]:
+                del d[k]
+        n += 1
+        rep.case(True)
+        why = compare("(runs %s, after the caller edited the dict shared_atts had returned)" % (runs,), v, edited=True)
+        if why is None:
+            for meth, args in (("upper", ()), ("center", (9,)), ("ljust", (9, "*"))):
+                r = call(v, meth, args)
+                sh = dict(runs[0][1])
+                for _, a in runs[1:]:
+                    sh = {k: x for k, x in sh.items() if a.get(k) == x}
+                if r[0] == "ok" and isinstance(r[1], Obj) and any(dict(e) != sh for _, e in cells(runs_of(r[1])) if True):
+                    got = sorted({kv for _, e in cells(runs_of(r[1])) for kv in e})
+                    if set(got) != set(sh.items()):
+                        why = "(runs %s, after the caller edited the dict shared_atts had returned).%s%r carries %s; the formatting shared by all characters is %s" % (runs, meth, args, got, sh)
+                        break
+        if why:
+            bad.append(("shared_atts edited by the caller", why))
+    # join consumes its argument once: a one-shot iterator gives the same result as a list
+    sep = mk(it, (", ", {"fg": 31}))
+    items = ["a", mk(it, ("b", {"bold": True})), "c"]
+    r1 = it.callm(sep, "join", list(items))
+    r2 = it.callm(mk(it, (", ", {"fg": 31})), "join", iter(list(items)))
+    n += 1
+    rep.case(True)
+    if r1[0] == "opaque" or r2[0] == "opaque":
+        raise AnalysisError("join of an iterator is outside the evaluated subset: %s" % (r2,))
+    if r1[0] != "ok" or r2[0] != "ok" or cells(runs_of(r1[1])) != cells(runs_of(r2[1])):
+        bad.append(("join of a one-shot iterator", "', '.join(iter(items)) gives %s, ', '.join(list(items)) gives %s; str.join accepts any iterable once"
+                    % (_show(r2), _show(r1))))
+    counts["derived_receivers"] = n
+    if bad:
+        bad.sort(key=lambda x: len(x[1]))
+        rep.ob("G-receivers-with-a-history-agree-with-str", f.where(), "formatstring:FmtStr", "methods on receivers of the derived pool", False,
+               "%s: %s (%d of %d receivers)" % (bad[0][0], bad[0][1], len(bad), n), witness={"receiver": bad[0][0]})
+    else:
+        rep.ob("G-receivers-with-a-history-agree-with-str", f.where(), "formatstring:FmtStr", "methods on receivers of the derived pool", True)
+
+
 def check(src, rep):
     rep.explanation = EXPLANATION
     rep.not_decided = NOT_DECIDED
@@ -207,6 +312,7 @@ def check(src, rep):
     rep.guard(rule_split, src, rep, counts)
     rep.guard(rule_shared_complete, src, rep, counts)
     rep.guard(rule_generated, src, rep, counts)
+    rep.guard(rule_derived, src, rep, counts)
     rep.extracted["counts"] = counts
     rep.floor("generated pool cases", counts.get("generated_cases", 0), 1500)
     rep.floor("delegated method samples", counts.get("delegated", 0), 30)
